@@ -40,6 +40,9 @@ type Op struct {
 	UID    string
 	GID    string
 	Aname  string // attach: the file tree asked for (ufs serves one tree and ignores it)
+	WMtime int64  // wstat: modification time asked for (seconds; 0 = the zero time.Time)
+	Rel    string // hosttime: path below the export root whose times the HOST changes
+	Secs   int64  // hosttime: the new modification time
 }
 
 // NameSexp prints a name as #hex, or - when it contains a long run of one byte -
@@ -100,7 +103,14 @@ func (o Op) Sexp() sx.S {
 	case "write":
 		return sx.L(sx.Sym("write"), f, sx.B(o.Data), sx.I(o.Off))
 	case "wstat":
-		return sx.L(sx.Sym("wstat"), f, NameSexp(o.Name), sx.U(uint64(o.WMode)), sx.U(o.WLen), sx.Str(o.UID), sx.Str(o.GID))
+		l := []sx.S{sx.Sym("wstat"), f, NameSexp(o.Name), sx.U(uint64(o.WMode)), sx.U(o.WLen), sx.Str(o.UID), sx.Str(o.GID)}
+		if o.WMtime != 0 {
+			l = append(l, sx.I(o.WMtime)) // ufs ignores times in WStat; the model does not read this item
+		}
+		return sx.List(l)
+	case "hosttime":
+		// not a session call: the host (os.Chtimes) changes a file's times; the model skips it
+		return sx.L(sx.Sym("hosttime"), sx.Str(o.Rel), sx.I(o.Secs))
 	}
 	panic("bad op kind " + o.Kind)
 }
@@ -402,10 +412,11 @@ func (e spyEnt) WStat(ctx context.Context, dir p9p.Dir) error {
 // ---------------------------------------------------------------- session driver
 
 type Sess struct {
-	S      p9p.Session
-	sp     *spy
-	diroff map[uint32]int64
-	Dead   string // non-empty once a call hung or panicked
+	S        p9p.Session
+	sp       *spy
+	diroff   map[uint32]int64
+	Dead     string    // non-empty once a call hung or panicked
+	LastDirs []p9p.Dir // what the last successful stat (one entry) or readdir returned
 }
 
 // NSpellings is the number of equivalent spellings Spelling knows.
@@ -633,13 +644,16 @@ func (s *Sess) do(o Op) (sx.S, []byte) {
 		l := []sx.S{sx.Sym("list")}
 		rd := bytes.NewReader(all)
 		codec := p9p.NewCodec()
+		var dirs []p9p.Dir
 		for rd.Len() > 0 {
 			var d p9p.Dir
 			if err := p9p.DecodeDir(codec, rd, &d); err != nil {
 				return sx.Sym("undecodable"), all
 			}
 			l = append(l, dirSexp(d))
+			dirs = append(dirs, d)
 		}
+		s.LastDirs = dirs
 		return sx.List(l), all
 	case "write":
 		n, err := s.S.Write(ctx, fid, o.Data, o.Off)
@@ -652,9 +666,13 @@ func (s *Sess) do(o Op) (sx.S, []byte) {
 		if err != nil {
 			return SErr, nil
 		}
+		s.LastDirs = []p9p.Dir{d}
 		return dirSexp(d), nil
 	case "wstat":
 		d := p9p.Dir{Name: o.Name, Mode: o.WMode, Length: o.WLen, UID: o.UID, GID: o.GID}
+		if o.WMtime != 0 {
+			d.ModTime = time.Unix(o.WMtime, 0)
+		}
 		if err := s.S.WStat(ctx, fid, d); err != nil {
 			return SErr, nil
 		}
@@ -720,4 +738,110 @@ func ValidNames(ns []string) bool {
 		}
 	}
 	return true
+}
+
+// ---------------------------------------------------------------- modification times
+
+// EntStat asks the entry bound to fid for its Dir (the Info cached by newRef).
+func (s *Sess) EntStat(fid uint32) (p9p.Dir, bool) {
+	ent, _, ok := p9p.VerifFidEnt(s.S, p9p.Fid(fid))
+	if !ok || ent == nil {
+		return p9p.Dir{}, false
+	}
+	d, err := ent.Stat(context.Background())
+	return d, err == nil
+}
+
+// TimeOracle compares the modification times ufs reports with the host's own,
+// at the points where both were taken from the same state of the host: right
+// after an operation bound a fid (newRef has just called os.Stat), and for
+// listings against os.ReadDir taken right after the directory was opened.
+// Whole seconds, as the wire carries them (uint32).  Access times are left
+// out: the harness's own reads of the tree change them.
+type TimeOracle struct {
+	export string
+	snap   map[uint32]map[string]uint32
+	Checks int
+}
+
+func NewTimeOracle(export string) *TimeOracle {
+	return &TimeOracle{export: export, snap: map[uint32]map[string]uint32{}}
+}
+
+// After is called after every operation with its result and the fid table;
+// it returns (key suffix, text) pairs for every disagreement.
+func (t *TimeOracle) After(s *Sess, o Op, res sx.S, fids []FidState) [][2]string {
+	var out [][2]string
+	ok := res != SErr && res != SUnmodelled
+	find := func(fid uint32) *FidState {
+		for i := range fids {
+			if fids[i].Fid == fid {
+				return &fids[i]
+			}
+		}
+		return nil
+	}
+	fresh := uint32(NOFID)
+	switch o.Kind {
+	case "attach", "create":
+		if ok {
+			fresh = o.Fid
+		}
+	case "walk":
+		if ok && !(len(o.Names) == 0 && o.NewFid == o.Fid) {
+			fresh = o.NewFid
+		}
+	}
+	switch o.Kind {
+	case "clunk", "remove":
+		delete(t.snap, o.Fid)
+	case "walk":
+		if ok && o.NewFid == o.Fid && len(o.Names) > 0 {
+			delete(t.snap, o.Fid)
+		}
+	case "create":
+		if ok {
+			delete(t.snap, o.Fid)
+		}
+	}
+	if fresh != NOFID {
+		if f := find(fresh); f != nil {
+			d, have := s.EntStat(fresh)
+			hi, err := os.Lstat(filepath.Join(t.export, f.Path))
+			if have && err == nil {
+				t.Checks++
+				if d.ModTime.Unix() != hi.ModTime().Unix() {
+					out = append(out, [2]string{"mtime", fmt.Sprintf("fid %d was just bound to %q: its Dir carries modification time %d (%s), the host's os.Lstat says %d (%s)",
+						fresh, f.Path, d.ModTime.Unix(), d.ModTime.UTC().Format(time.RFC3339), hi.ModTime().Unix(), hi.ModTime().UTC().Format(time.RFC3339))})
+				}
+			}
+		}
+	}
+	if (o.Kind == "open" || o.Kind == "create") && ok {
+		if f := find(o.Fid); f != nil && f.Open == 1 {
+			m := map[string]uint32{}
+			if ents, err := os.ReadDir(filepath.Join(t.export, f.Path)); err == nil {
+				for _, e := range ents {
+					if i, err := e.Info(); err == nil {
+						m[e.Name()] = uint32(i.ModTime().Unix())
+					}
+				}
+				t.snap[o.Fid] = m
+			}
+		}
+	}
+	if o.Kind == "readdir" && ok {
+		if m := t.snap[o.Fid]; m != nil {
+			for _, d := range s.LastDirs {
+				if want, have := m[d.Name]; have {
+					t.Checks++
+					if uint32(d.ModTime.Unix()) != want {
+						out = append(out, [2]string{"listing-mtime", fmt.Sprintf("listing read through fid %d: entry %q carries modification time %d, os.ReadDir taken when the directory was opened says %d",
+							o.Fid, d.Name, uint32(d.ModTime.Unix()), want)})
+					}
+				}
+			}
+		}
+	}
+	return out
 }
